@@ -197,7 +197,14 @@ Definition is_empty_txn (s : tstate) : bool := negb (p0 s) && negb (p1 s) && neg
 (* error_transaction(e) / fatal_error(e): transition, clear partitions and group, store e *)
 Definition to_error (s : tstate) (target : tst) (e : exn) : option tstate :=
   match trans (st s) target with
-  | Some t => Some (mkT t false false false (gck s) (Some e) (gap0 s) (gap1 s))
+  | Some t =>
+      match target with
+      | ABORTABLE =>
+          (* error_transaction keeps what the coordinator has registered (_txn_partitions,
+             _txn_consumer_group): the abort has to end it there with EndTxn(ABORT) *)
+          Some (mkT t (p0 s) (p1 s) (grp s) (gck s) (Some e) (gap0 s) (gap1 s))
+      | _ => Some (mkT t false false false (gck s) (Some e) (gap0 s) (gap1 s))
+      end
   | None => None
   end.
 
@@ -237,12 +244,9 @@ Definition api_send (s : tstate) (p : part) (f : fault) : tstate * result * list
         | ASuccess => do_produce (add_part s p) p f I1 [r]
         | ARetry d => do_produce (add_part s p) p f I1 (resend r d false)
         | AAbortable e =>
-            (* error_transaction clears _pending_txn_partitions: the batch is no longer muted and
-               is produced although the partition was never added *)
-            match to_error s ABORTABLE e with
-            | Some s' => do_produce s' p f I1 [r]
-            | None => (s, XStuck, [r])
-            end
+            (* Sender._abortable_error: the batch that was waiting for the partition is failed
+               (MessageAccumulator.fail_partitions), never produced *)
+            fail_with s ABORTABLE e RFutFail [r]
         | AFatal e | AFailBatch e => fail_with s FATAL e RFutFail [r]
         end
   | _ => (s, RRaise XIllegalOperation, [])
@@ -397,12 +401,11 @@ Definition call_paths (q : pstate) (c : call) : list (list pev * okind) :=
   end.
 
 (* how the call's result may relate to the path kind.  KClean + a failed send future is the
-   batch-level failure of SendProduceReqHandler (the transaction state is not touched);
-   KAbortable + ROk on send is the batch that is produced after error_transaction un-muted it. *)
+   batch-level failure of SendProduceReqHandler (the transaction state is not touched). *)
 Definition result_fits (c : call) (k : okind) (r : result) : bool :=
   match k with
   | KFatal => is_error r
-  | KAbortable => match c with Send _ => true | _ => is_error r end
+  | KAbortable => is_error r
   | KClean => match r with
               | ROk => true
               | RFutFail _ => match c with Send _ => true | _ => false end
